@@ -127,7 +127,8 @@ where Octs: AsRef<[u8]>,
 
 impl<Octs: AsRef<[u8]>> Ord for FlowSpecNlri<Octs> {
     fn cmp(&self, other: &Self) -> cmp::Ordering {
-        self.raw.as_ref().cmp(other.raw.as_ref())
+        self.afi.cmp(&other.afi)
+            .then(self.raw.as_ref().cmp(other.raw.as_ref()))
     }
 }
 
